@@ -141,7 +141,7 @@ partial def loop (h : IO.FS.Stream) (out : IO.FS.Stream) (c : Conf) : IO Unit :=
     | [_, got] =>
       match C12.parseEnv got with
       | some e =>
-        let bad := C12.checkParam e
+        let bad := C12.checkParam e ++ (match C04.mkEnv e with | some e4 => C12V.hypotheses e4 | none => [])
         out.putStrLn (if bad.isEmpty then "ok pc_param" else "FAIL S model=[] spec=[" ++ String.intercalate ";" bad ++ "] got=[" ++ got ++ "]")
         loop h out { c with pc := some e, pc4 := C04.mkEnv e, pc4m := (C04.mkEnv e).bind C04.mkPEnv }
       | none =>
